@@ -219,6 +219,16 @@ func checkC10(c *core.Ctx) {
 		if i%6 == 2 {
 			copt.StdinPieces = 2 + i%3
 		}
+		// standard input that is not a fresh pipe: a regular file, a file whose first line somebody else has read
+		// already (the text starts at the current offset), a socket
+		switch i % 12 {
+		case 4:
+			copt.StdinKind = "fileoffset"
+		case 7:
+			copt.StdinKind = "file"
+		case 10:
+			copt.StdinKind = "socket"
+		}
 		if i%8 == 5 {
 			cargs = append([]string{"--debug"}, args...)
 		}
@@ -249,7 +259,14 @@ func checkC10(c *core.Ctx) {
 		det["instances_yaml"] = short(string(conv.Stdout), 2500)
 		wargs := flags.Args()
 		// write parse
-		wp := run(c, conv.Stdout, append([]string{"write", "parse"}, wargs...)...)
+		wopt := runner.Opt{Stdin: conv.Stdout}
+		switch i % 12 {
+		case 1:
+			wopt.StdinKind = "fileoffset"
+		case 9:
+			wopt.StdinKind = "socket"
+		}
+		wp := c.Crd.Run(wopt, append([]string{"write", "parse"}, wargs...)...)
 		c.Eval(1)
 		if infra(c, wp) {
 			return
@@ -363,7 +380,28 @@ func checkC10(c *core.Ctx) {
 			// the document ends with a rest whose text ends in blank lines (block scalars with keep chomping)
 			p.Inst = append(p.Inst, model.Instance{Values: one(), Meta: map[string]string{[]string{"lic", "mrk"}[r.Intn(2)]: []string{"end of verse\n\n", "coda\n\n\n", "x\n", "two\n\nbreaks\n\n"}[r.Intn(4)]}})
 		}
-		doc := p.YAML(randWriteOpts(r).style)
+		style := randWriteOpts(r).style
+		if i%3 == 0 && !style.JSON {
+			// texts stated by reference: a lyric or marker that comes back is written as an alias of its first
+			// occurrence, the first pair of a metadata map arrives through a merge key
+			style.Anchors = true
+			if len(p.Inst) >= 2 {
+				a, b := r.Intn(len(p.Inst)), r.Intn(len(p.Inst))
+				if p.Inst[a].Meta == nil {
+					p.Inst[a].Meta = map[string]string{}
+				}
+				p.Inst[a].Meta["lic"] = []string{"la la la", "refrain: x", "- dash", "1e3"}[r.Intn(4)]
+				p.Inst[a].Meta["mrk"] = []string{"A", "verse 2", "*star"}[r.Intn(3)]
+				if a != b {
+					if p.Inst[b].Meta == nil {
+						p.Inst[b].Meta = map[string]string{}
+					}
+					p.Inst[b].Meta["lic"] = p.Inst[a].Meta["lic"]
+					p.Inst[b].Meta["mrk"] = p.Inst[a].Meta["lic"]
+				}
+			}
+		}
+		doc := p.YAML(style)
 		det := map[string]any{"yaml": short(string(doc), 2500)}
 		lb := ""
 		for _, in := range p.Inst {
@@ -379,6 +417,10 @@ func checkC10(c *core.Ctx) {
 		}
 		if a := abnormal(wc); a != "" {
 			c.Violate("documents", i, "documents:abnormal", "write conv "+a, mergeMaps(det, map[string]any{"run": obs(wc)}))
+			return
+		}
+		if !w.OK() {
+			c.Violate("documents", i, "documents:refused", "crd write refuses a valid instances document", mergeMaps(det, map[string]any{"write": obs(w)}))
 			return
 		}
 		if !w.OK() || !wc.OK() {
@@ -422,7 +464,73 @@ func checkC10(c *core.Ctx) {
 			c.Violate("documents", i, "documents:texts"+lb, "lyric/marker texts change through write conv: "+firstDiff(got, want), det)
 			return
 		}
+		// ... and they are the texts the document states, however the document states them (plain, quoted, block
+		// scalar, alias of an earlier text, merge key)
+		var stated, played []string
+		for _, in := range p.Inst {
+			for _, k := range []string{"lic", "mrk"} {
+				if t, ok := in.Meta[k]; ok {
+					stated = append(stated, k+":"+t)
+				}
+			}
+		}
+		for _, e := range mergedEvents(f1) {
+			if e.Kind == smfdec.Meta && e.MetaType == smfdec.MetaLyr {
+				played = append(played, "lic:"+string(e.Data))
+			}
+			if e.Kind == smfdec.Meta && e.MetaType == smfdec.MetaMark {
+				played = append(played, "mrk:"+string(e.Data))
+			}
+		}
+		if !eqStrs(sortedCopy(stated), sortedCopy(played)) {
+			c.Violate("documents", i, "documents:stated-texts", "the lyric/marker events of crd write are not the texts the document states: "+firstDiff(sortedCopy(played), sortedCopy(stated)), det)
+			return
+		}
 		c.Nontrivial(fmt.Sprintf("doc%d", i))
+	})
+
+	// a long text whose conversion fails at a late chord: text conv prints instances or fails - never the first part of
+	// the piece (what it prints is read by crd write as the whole piece)
+	c.Stream("lateerror", c.N(16, 200), func(i int, r *rand.Rand) {
+		n := 90 + r.Intn(500)
+		bad := []string{"C[0]", "D[1]{bpm=12O}", "E[1]{vel=zzz}", "F[1]{key=H}", "G[1/0]", "A[1]{mtr=4/0}", "Eb[1]{key=F#m} Eb[1]", "C[1]{bpm=0}"}[i%8]
+		unit := []string{"C[1]{lic=la la la la la la la la} ", "Am7/G[1/2,1/2] F[2] ", "G_7[1]{txt=verse} R[1] "}[i/8%3]
+		at := n - r.Intn(20)
+		if i%5 == 4 {
+			at = n / 2
+		}
+		text := strings.Repeat(unit, at) + bad + " " + strings.Repeat(unit, n-at)
+		for k, args := range [][]string{{"text", "conv", "syllable"}, {"text", "conv", "syllable", "-o"}} {
+			var outPath string
+			if k == 1 {
+				outPath = c.Scratch.Path("late.yml")
+				os.Remove(outPath)
+				args = append(append([]string{}, args...), outPath)
+			}
+			res := run(c, []byte(text), args...)
+			c.Eval(1)
+			if infra(c, res) {
+				return
+			}
+			det := map[string]any{"bad_chord": bad, "position": at, "chords_around": n, "run": obs(res)}
+			if a := abnormal(res); a != "" {
+				c.Violate("lateerror", i, "lateerror:abnormal", "text conv "+a, det)
+				return
+			}
+			if res.OK() {
+				c.Violate("lateerror", i, "lateerror:accepted:"+bad, fmt.Sprintf("text conv accepts a piece whose chord %d is %s", at, bad), det)
+				return
+			}
+			printed := res.Stdout
+			if k == 1 {
+				printed = readFileOrNil(outPath)
+			}
+			if len(bytes.TrimSpace(printed)) > 0 {
+				c.Violate("lateerror", i, "lateerror:partial", fmt.Sprintf("text conv fails at chord %d (%s) of %d but has printed %d bytes of instances (%s)", at, bad, n, len(printed), []string{"stdout", "-o file"}[k]), det)
+				return
+			}
+		}
+		c.Nontrivial(fmt.Sprintf("lateerror%d", i))
 	})
 
 	// large pieces: the interchange document grows far beyond any buffer size (64 KiB, 1 MiB)
